@@ -93,12 +93,66 @@ def check_call(job, native):
     return {"violated": False, "detail": f"contract holds natively; result={result!r}"}
 
 
+SAMPLES = {
+    "int": [-1, 0, 1, 2, 9, 25, 26, 27, 51, 52, 701, 702, 703, 18277, 18278, 65535, 1000000, -7],
+    "nat": [0, 1, 2, 9, 25, 26, 27, 51, 52, 701, 702, 703, 18277, 99],
+    "bool": [False, True],
+    "str": ["", "A", "A1", "$A$1", "AA10", "ZZ99", "a1", "1", "$", "AAA1", "XFD1048576", "\u00e91", "A0", "Z", "AZ", "BA", "ZZZ", "$B", "A1:B2", " A1", "A-1", "$$A1"],
+}
+
+
+def grid_search(job, native):
+    """a contract written over plain parameters, checked natively over a grid of sample arguments (used when the function can no
+    longer be brought under its contract symbolically): parameters defined by a precondition `p == <expr>` are computed from it"""
+    import itertools
+    import random
+    env0 = dict(BASE)
+    env0.update(getattr(native, "NATIVE", {}))
+    params, ghost = job["params"], job.get("ghost_kinds", {})
+    defined = {}
+    for r in job.get("requires", []):
+        m = re.match(r"^(\w+) == (.+)$", r)
+        if m and m.group(1) in params and params[m.group(1)] == "str":
+            defined[m.group(1)] = m.group(2)
+    free = [(n, k, False) for n, k in params.items() if n not in defined] + [(n, k, True) for n, k in ghost.items()]
+    spaces = [SAMPLES.get(k if isinstance(k, str) else "int", [0, 1]) for _, k, _ in free]
+    combos = list(itertools.product(*spaces)) if spaces else [()]
+    if len(combos) > 4000:
+        random.Random(5).shuffle(combos)
+        combos = combos[:4000]
+    tried = 0
+    for combo in combos:
+        args = {n: v for (n, _, g), v in zip(free, combo) if not g}
+        gh = {n: v for (n, _, g), v in zip(free, combo) if g}
+        env = dict(env0)
+        env.update(gh)
+        env.update(args)
+        try:
+            for n, expr in defined.items():
+                args[n] = eval(expr, env)
+                env[n] = args[n]
+        except Exception:  # noqa: BLE001
+            continue
+        j = dict(job, args=args, ghost=gh)
+        r = check_call(j, native)
+        if r.get("spurious"):
+            continue
+        tried += 1
+        if r.get("violated"):
+            r["job"] = {k: v for k, v in j.items() if k not in ("grid", "params", "ghost_kinds")}
+            r["tried"] = tried
+            return r
+    return {"violated": False, "tried": tried}
+
+
 def main():
     job = json.load(sys.stdin)
     native = load_native(job.get("native_module"))
     try:
         if "custom" in job:
             res = getattr(native, job["custom"])(job)
+        elif job.get("grid"):
+            res = grid_search(job, native)
         elif "batch" in job:
             res = {"results": []}
             for j in job["batch"]:
